@@ -8,7 +8,7 @@ CONSTANTS Scenario,   \* "small": every call, short names + a maximal name, smal
                       \* "big":   filler records that put names on both sides of 0x3FFF, 0xBFFF, 0xFFFF
           MaxOps,     \* number of calls in a behaviour
           CompSet,    \* compressors explored
-          TgtSet      \* target kinds explored: "vec" (also stands for BytesMut), "array", "stream"
+          TgtSet      \* target kinds explored: "vec" (also stands for BytesMut), "array", "stream", "sarray"
 
 VARIABLES hist,       \* the calls made so far with the projected state after each
           ambig       \* a push hit the limit exactly (both results admissible)
@@ -71,7 +71,8 @@ Limits == IF Scenario = "small" THEN {Op("limit", 0, 0, 60), Op("limit", 0, 0, 3
 Others == {Op("rewind", 0, 0, 0), Op("finish", 0, 0, 0)}
 Calls == Questions \cup Records \cup Opts \cup Gotos \cup Limits \cup Others
 
-CapOf(t) == CASE t = "array" -> 512 [] t = "stream" -> 65535 [] OTHER -> Unbounded
+\* "sarray": a stream target over a fixed array with room for 34 octets of message
+CapOf(t) == CASE t = "array" -> 512 [] t = "stream" -> 65535 [] t = "sarray" -> 34 [] OTHER -> Unbounded
 
 --------------------------------------------------------------------------
 Proj == [res |-> res', len |-> buf'.len, cnt |-> HdrCounts(buf'),
